@@ -28,6 +28,13 @@ def templates(n_prog):
     for rs2 in REGS:
         T.append(lambda rs2=rs2: I.SW(3, rs2, 4))
         T.append(lambda rs2=rs2: I.SB(3, rs2, 1))
+    # accesses spread over many blocks and sets (cache behaviour): word offsets 0..252 from the data pointer
+    for k in (16, 20, 32, 36, 64, 68, 96, 128, 132, 160, 192, 224, 252):
+        T.append(lambda k=k: I.LW(1, 3, k))
+        T.append(lambda k=k: I.LW(2, 3, k))
+        T.append(lambda k=k: I.SW(3, 2, k))
+    T.append(lambda: I.LH(1, 3, 66))
+    T.append(lambda: I.SH(3, 1, 34))
     for rs1 in (0, 1, 2):
         for off in (-4, 8, 12):
             T.append(lambda rs1=rs1, off=off: I.BEQ(rs1, 0, off))
